@@ -438,6 +438,11 @@ class IntroVisitorIndirect(_ScopedVisitor):
             # by directly importing the function.
             if isinstance(obj, FunctionType) or inspect.isclass(obj):
                 self._inspect_reference(node)
+        elif "." in node.id and LocalVar(node.id) not in self._store_names:
+            # The full name of an object imported in the body of the function (see _BodyImportsResolver).
+            self._store_names.add(LocalVar(node.id))
+            if _referenced_callable([node.id], self._start_mod, self._gctx) is not None:
+                self._inspect_reference(node)
 
         self.generic_visit(node)
 
@@ -460,7 +465,7 @@ class IntroVisitorIndirect(_ScopedVisitor):
         if (
             parts is not None
             and isinstance(node.ctx, ast.Load)
-            and parts[0] in self._start_mod.__dict__
+            and (parts[0] in self._start_mod.__dict__ or "." in parts[0])
             and parts[0] not in python_builtin_names
             and LocalVar(parts[0]) not in self._scope_locals
             and LocalVar("/".join(parts)) not in self._store_names
